@@ -238,7 +238,7 @@ func flowsFromField(v ssa.Value, names ...string) bool {
 			return false
 		}
 		for _, n := range names {
-			if fv.Name() == n {
+			if refName(fv) == n {
 				return true
 			}
 		}
@@ -253,7 +253,7 @@ func depOnField(v ssa.Value, names ...string) bool {
 			return false
 		}
 		for _, n := range names {
-			if fv.Name() == n {
+			if refName(fv) == n {
 				return true
 			}
 		}
